@@ -233,7 +233,8 @@ def check_input(
             # does not expect "self" / "cls" among the arguments
             sig = inspect.signature(wrapped)
             is_method = [*sig.parameters][0] in ("self", "cls")
-            pos_args = sig.bind_partial(*args).arguments
+            bound_args = sig.bind_partial(*args)
+            pos_args = bound_args.arguments
 
             if isinstance(obj_getter, int):
                 try:
@@ -258,7 +259,8 @@ def check_input(
                     pos_args[obj_getter] = schema.validate(
                         pos_args[obj_getter], *validate_args
                     )
-                    args = list(pos_args.values())
+                    # unpacks the values collected by an '*args'-like argument
+                    args = list(bound_args.args)
             elif obj_getter is None:
                 try:
                     _fn = _unwrap_fn(wrapped)
